@@ -55,7 +55,7 @@ type cenv struct {
 	pkg    *types.Package
 	vars   map[string]interface{} // post-state bindings
 	old    map[string]interface{} // pre-state bindings (nil: same as vars)
-	objs   map[int]*cstruct        // post-state objects by id
+	objs   map[int]*cstruct       // post-state objects by id
 	oldObj map[int]*cstruct
 	inOld  bool
 	strs   []string // candidate strings for string quantifiers
